@@ -155,6 +155,16 @@ CLAIMED['C05']['text'] = CLAIMED['C05']['text'] + ' Unit GEN additionally proves
     'new_ returns a fresh singleton element, insert_ makes the tuple visible to the point query immediately for every argument of the same classes, '\
     'the evaluation function returns Some(y) exactly when the row is present (real text, closures with `?`), define_ returns the existing value or a fresh element.'
 
+CLAIMED['C09'] = {
+    'category': 'exploration',
+    'text': 'Bounded: for the sampled theories (the probe theories; in the thorough tier also every theory of eqlog-test-eval/src) the compiler built from the current tree runs in '
+            'module mode and in component mode without panicking, rustc accepts the emitted module in both modes, and in component mode the compiler compiles every component library. '
+            '"rustc accepts the emitted text" is not a postcondition over Display implementations that a verifier here could discharge; deciding it means running rustc on outputs, which is '
+            'what this bounded stand-in does on sampled programs.',
+    'design_ref': '§6 C09',
+    'note': 'Bounded stand-in, labelled exploration, never counted as proved. Programs are sampled; identifiers colliding with generator names and relations above 9 columns are not explored.',
+    'technique': 'bounded execution of the compiler and rustc on sampled programs in both build modes (labelled bounded)',
+}
 CLAIMED['C13'] = {
     'category': 'exploration',
     'text': 'Bounded: the compiler built from the current tree is run on the probe theories twice in module mode (different input and output directories) and twice in component mode '
@@ -188,7 +198,6 @@ CLAIMED['C20'] = {
 
 NOT_APPLICABLE = {
     'C02': 'needs the denotation of generated rule functions and define_*; not expressible as a contract within reach (DESIGN §6)',
-    'C09': '"rustc accepts the emitted text" is not a postcondition over Display impls; would be translation validation, another family',
     'C10': 'the static checks are ~300 eqlog rules interpreted by generated code; there is no Rust function whose contract is the reference semantics',
     'C12': 'state is a directory tree mutated through std::fs and a rustc child process, quantified over crash points; every callee is external',
     'C15': 'couples a Datalog check, the emitted define_* set and <enum>_cases iterator chains; none within reach',
